@@ -53,20 +53,26 @@ TRUSTED_BASE = [
     "the authenticity of the packet sender (lazy_wrapper / BinMemberAuthenticationPayload) is C01's subject and assumed here",
 ]
 ASSUMPTIONS = [
-    "one IdentityCommunity object lifetime (the consent table, trees and the record of own attestations are in-memory state)",
-    "registered extra metadata is dict[str, str] as annotated (Python's 1 == 1.0 == True dict equality is not modelled)",
+    "object lifetimes are modelled (restart over the same database with a new or the old IdentityManager); co-hosted pseudonyms sharing one manager are not",
+    "JSON values are compared type-exactly (canonical json.dumps with sorted keys), as should_sign does since the fix",
     "SHA3-256 is injective on the byte strings that occur (ids are interned byte strings)",
     "curve25519 keys (64-byte deterministic signatures); peers never send to themselves",
-    "model time is whole seconds",
+    "model time is whole milliseconds; the harness moves the clock in multiples of 1/8 s (exact in binary floating point)",
 ]
 
 PAD = b"SHA-1" + b"\x00" * 7
 SIGLEN = 64
 TOKSZ = 64 + SIGLEN
 WINDOW = 300
+WINDOW_MS = WINDOW * 1000
 LIMIT = 1296
 NAMES = ["attribute", "name1", "n"]
-MDS = [None, None, {}, {"a": "b"}, {"a": "c"}, {"a": "b", "x": "y"}]
+MDS = [None, None, {}, {"a": "b"}, {"a": "c"}, {"a": "b", "x": "y"}, {"a": 1}, {"a": True}, {"a": 1.0}]
+
+
+def jd(x) -> str:
+    """type-exact canonical form of a JSON value (True, 1 and 1.0 are three different values)"""
+    return json.dumps(x, sort_keys=True)
 N_NODES = 3
 N_EXTRA = 2
 
@@ -115,6 +121,8 @@ class World:
         self.by_addr = {a: k for k, a in self.addr.items()}
         for k, n in self.nodes.items():
             n.endpoint.send = self._mk_send(k)
+        self.seen_attr, self.seen_tok = set(), set()
+        self._rows_before = {}
         self.retired = []                                   # objects of earlier lifetimes (stopped at the end)
         self.lifetime = {k: 0 for k in self.nodes}
         self.attested_life = {k: {} for k in self.nodes}    # v -> metadata hash -> lifetime in which it was attested
@@ -166,7 +174,8 @@ class World:
             raise InfraError(f"harness cannot decode a packet it captured: {e!r}")
 
     def now(self) -> int:
-        return int(self.loop.time())
+        """virtual time in milliseconds"""
+        return int(round(self.loop.time() * 1000))
 
     # ---- interning ----------------------------------------------------------------------------------------
     def hid(self, b: bytes) -> int:
@@ -177,9 +186,7 @@ class World:
         return self._n.setdefault(key, len(self._n) + 1)
 
     def xid(self, d: dict) -> int:
-        key = tuple(sorted((k, ("s", v) if isinstance(v, str) else ("o", json.dumps(v, sort_keys=True)))
-                           for k, v in d.items()))
-        return self._x.setdefault(key, len(self._x) + 1)
+        return self._x.setdefault(jd(d), len(self._x) + 1)
 
     def kid(self, keybin: bytes) -> int:
         if keybin not in self.kids:
@@ -322,7 +329,7 @@ class World:
             for h, tup in kn.items():
                 try:
                     name, t, key, md = tup
-                    ks.append("%d:%d:%d:%d:%s" % (self.hid(h), self.nid(name), int(t), self.kid(key),
+                    ks.append("%d:%d:%d:%d:%s" % (self.hid(h), self.nid(name), int(round(t * 1000)), self.kid(key),
                                                   "-" if md is None else str(self.xid(md))))
                 except Exception:
                     ks.append("?")
@@ -353,7 +360,9 @@ class World:
         if p.kind == 1:
             mds, _ = self.parse_metadata(p.body.metadata)
             toks, _ = self.parse_tokens(p.body.tokens)
-            return "P%d:[%s]:%d" % (p.dst, ",".join(str(self.hid(m["h"])) for m in mds), len(toks))
+            got, mine = {t["h"] for t in toks}, set(self.chain.get(p.src, []))
+            tag = "all" if got == mine else "sub" if got <= mine else "foreign"
+            return "P%d:[%s]:%d:%s" % (p.dst, ",".join(str(self.hid(m["h"])) for m in mds), len(toks), tag)
         return "?%d" % p.kind
 
     # ---- oracle -------------------------------------------------------------------------------------------------
@@ -399,10 +408,23 @@ class World:
             if self.attested_life[v].get(mp) == self.lifetime[v]:
                 self.fail(site + ":attested-twice", tag + " although it had attested the same metadata before")
             else:
-                self.ctx.count("oracle:attested-again-after-restart")
-                self.fail(site + ":attested-twice-after-restart", tag + " although it had attested the same metadata "
-                          "before a restart (its own row was dropped in favour of a third party's, primary key "
-                          "(subject, metadata)): the database guard cannot see it")
+                rows = self._rows_before.get(v, [])
+                own = [r for r in rows if r[0] == self.pkbin[p] and r[1] == self.pkbin[v] and r[2] == mp]
+                other = [r for r in rows if r[0] == self.pkbin[p] and r[1] != self.pkbin[v] and r[2] == mp]
+                if own:
+                    self.ctx.count("oracle:attested-again-after-restart:own-row-stored")
+                    self.fail(site + ":attested-again-own-row-stored", tag + " although it had attested the same "
+                              "metadata before a restart AND its own attestation row is in the table: the database "
+                              "guard did not find it")
+                elif other:
+                    self.ctx.count("oracle:attested-again-after-restart:third-party-row-first")
+                    self.fail(site + ":attested-twice-after-restart", tag + " although it had attested the same metadata "
+                              "before a restart (its own row was dropped in favour of a third party's, primary key "
+                              "(subject, metadata)): the database guard cannot see it")
+                else:
+                    self.ctx.count("oracle:attested-again-after-restart:no-row")
+                    self.fail(site + ":attested-again-row-missing", tag + " although it had attested the same metadata "
+                              "before a restart; no attestation row for (subject, metadata) is in the table at all")
         self.attested[v].append(mp)
         self.attested_life[v][mp] = self.lifetime[v]
         if not self.crypto.is_valid_signature(self.pk[v], mp, e.body.attestation[32:]):
@@ -436,6 +458,13 @@ class World:
             self.fail(site + ":no-name", tag + " but the metadata has no readable name")
             return
         content = tok[1]
+        key_ = (v, self.lifetime[v], p)
+        if (key_, content) in self.seen_attr:
+            self.ctx.count("oracle:attest:further-metadata-same-attribute-hash")
+        if (key_, tp) in self.seen_tok:
+            self.ctx.count("oracle:attest:further-metadata-same-token")
+        self.seen_attr.add((key_, content))
+        self.seen_tok.add((key_, tp))
         cands = [r for r in self.regs[v] if r["h"] == content]
         if not cands:
             self.fail(site + ":hash-not-registered", tag + " but its user never registered that attribute hash")
@@ -448,12 +477,12 @@ class World:
         if not c3:
             self.fail(site + ":name", tag + f" under name {name!r}, registered only under {[r['name'] for r in c2]}")
             return
-        c4 = [r for r in c3 if r["md"] is None or r["md"] == extra]
+        c4 = [r for r in c3 if r["md"] is None or jd(r["md"]) == jd(extra)]
         if not c4:
             self.fail(site + ":fixed-metadata", tag + f" with extra metadata {extra!r}, registration fixed "
                       f"{[r['md'] for r in c3]}")
             return
-        c5 = [r for r in c4 if now <= r["t"] + WINDOW]
+        c5 = [r for r in c4 if now <= r["t"] + WINDOW_MS]
         if not c5:
             self.fail(site + ":expired", tag + f" but the matching registrations were made at {[r['t'] for r in c4]}")
 
@@ -504,6 +533,8 @@ class World:
                     self.fail("on_attest:wrong-subject", tag + " under a pseudonym that is not its own")
             elif not ok:
                 self.fail("add_attestation:stored-invalid-signature", tag + " whose signature does not verify under the authority key")
+            elif trigger is not None and trigger.kind in (1, 4) and subj != self.pkbin[trigger.src]:
+                self.fail("substantiate:row-under-other-subject", tag + f" while handling a disclosure from peer {trigger.src}")
         for r in before:
             if r not in set(after):
                 self.fail("insert_attestation:row-lost", f"node {v} lost an attestation row")
@@ -523,18 +554,21 @@ class World:
         self.ctx.count("reg:subject=" + ("node" if subj <= N_NODES else "third-party"))
         self.check_dump(v)
 
-    def ev_restart(self, v):
+    def ev_restart(self, v, keep=False):
         """A new IdentityCommunity object (and a new IdentityManager: empty pseudonym cache) over the same database."""
         from ipv8.attestation.identity.community import IdentityCommunity, IdentitySettings
         from ipv8.attestation.identity.manager import IdentityManager
         from ipv8.peer import Peer
         from ipv8.test.mocking.ipv8 import MockIPv8
-        self.trace.append({"op": "restart", "v": v})
+        self.trace.append({"op": "restart", "v": v, "keep_manager": keep})
         old = self.nodes[v]
         old_chain = [t.get_hash() for t in old.overlay.token_chain]
-        im = IdentityManager(":memory:")
-        im.database.close()
-        im.database = old.overlay.identity_manager.database      # same tables, nothing else survives
+        if keep:
+            im = old.overlay.identity_manager                    # production unload/load: the manager (and its
+        else:                                                    # pseudonym cache with the subject trees) survives
+            im = IdentityManager(":memory:")
+            im.database.close()
+            im.database = old.overlay.identity_manager.database  # same tables, nothing else survives
         n = MockIPv8(Peer(self.sk[v]), IdentityCommunity, settings=IdentitySettings(identity_manager=im))
         self.retired.append(old)
         self.nodes[v], self.ov[v] = n, n.overlay
@@ -551,7 +585,8 @@ class World:
                                              "shorter" if len(new_chain) < len(old_chain) else "permuted"))
         self.chain[v] = new_chain
         self.perm[v] = {}
-        self.lines.append("Z %d [%s]" % (v, ",".join(str(self.hid(h)) for h in new_chain)))
+        self.lines.append("Z %d [%s] %d" % (v, ",".join(str(self.hid(h)) for h in new_chain), 1 if keep else 0))
+        self.ctx.count("restart:manager=" + ("kept" if keep else "new"))
         self.expect.append("ok")
         self.ctx.count("ev:restart")
         self.check_dump(v)
@@ -560,6 +595,7 @@ class World:
         self.trace.append({"op": "adv", "dt": dt})
         self.loop.advance(dt)
         self.ctx.count("ev:advance")
+        self.ctx.count("advance:" + ("fractional" if dt != int(dt) else "whole"))
 
     def ev_advert(self, s, v, raw, name, md):
         self.trace.append({"op": "advert", "s": s, "v": v, "raw": raw.hex()[:8], "name": name, "md": md})
@@ -584,8 +620,12 @@ class World:
             self.lines.append("V %d %d %d 0 0 0 n" % (s, self.now(), v))
         outs = sorted(self.out_str(e) for e in emitted)
         if self.lifetime[s]:
-            outs = sorted(re.sub(r"^(P\d+:\[\d*\]):\d+$", r"\1:*", o) for o in outs)
+            outs = sorted(re.sub(r"^(P\d+:\[\d*\]):\d+:(all|sub)$", r"\1:*", o) for o in outs)
         self.expect.append(" ".join(outs) or "-")
+        for e in emitted:
+            if e.dst != v:
+                self.fail("request_attestation_advertisement:other-destination",
+                          f"node {s} was asked to advertise to peer {v} and sent message {e.kind} to {e.dst}")
         self.oracle_outputs(s, None, emitted, api="advert")
         self.ctx.count("ev:advert")
         self.check_dump(s)
@@ -613,6 +653,7 @@ class World:
         self.ctx.count("ev:deliver:%s%s" % ({1: "disclose", 2: "attest", 3: "request_missing", 4: "missing_response"}
                                             .get(pkt.kind, "other"), ":replay" if replayed else ""))
         before = self.rows(v)
+        self._rows_before[v] = before
         q0 = len(self.queue)
         self.nodes[v].endpoint.notify_listeners((self.addr[pkt.src], pkt.data))
         emitted = self.queue[q0:]
@@ -717,7 +758,7 @@ class Gen:
         return self.rng.choice([k for k in self.w.nodes if k not in exclude])
 
     def json_variant(self, name, md, variant):
-        base = {"name": name, "schema": "id_metadata", "date": float(self.w.now())}
+        base = {"name": name, "schema": "id_metadata", "date": float(self.w.loop.time())}
         if md:
             base.update(md)
         if variant == "ok":
@@ -732,6 +773,10 @@ class Gen:
             base["name"] = 7
         elif variant == "extra-int":
             base["a"] = 1
+        elif variant == "extra-bool":
+            base["a"] = True
+        elif variant == "extra-float":
+            base["a"] = 1.0
         elif variant == "bad-json":
             return b"{not json"
         elif variant == "list-json":
@@ -790,7 +835,7 @@ class Gen:
         mds = []
         n_md = rng.choice([0, 1, 1, 1, 2])
         for _ in range(n_md):
-            mv = rng.choice(["ok"] * 5 + ["no-date", "no-schema", "no-name", "name-int", "extra-int", "bad-json",
+            mv = rng.choice(["ok"] * 5 + ["no-date", "no-schema", "no-name", "name-int", "extra-int", "extra-bool", "extra-float", "bad-json",
                                           "list-json", "foreign-signed", "dangling", "bad-sig", "reuse"])
             w.ctx.count("craft:metadata-variant:" + mv)
             name, md = rng.choice(NAMES), rng.choice(MDS)
@@ -923,7 +968,7 @@ class Gen:
                 w.ev_deliver(e)
         elif kind == "expiry":
             w.ev_reg(v, h1, name, a, None)
-            w.ev_advance(rng.choice([299, 300, 300, 301, 301, 302, 600]))
+            w.ev_advance(rng.choice([299, 299.875, 300, 300, 300.125, 301, 301, 302, 600]))
             w.ev_advert(a, v, h1, name, None)
             self.flush()
         elif kind == "third-party-first":
@@ -1010,15 +1055,25 @@ class Gen:
         elif kind == "restart":
             # first lifetime: attest a's credential, with or without a third party's attestation stored first;
             # then a new object over the same database, a renewed registration, and the same disclosure again
-            third_first = rng.random() < 0.6
-            w.ctx.count("restart-opener:" + ("third-party-first" if third_first else "own-row-stored"))
+            variant = rng.choice(["third-party-first", "third-party-first", "own-row-stored", "own-row-plus-row-of-other-subject"])
+            keep = rng.random() < 0.5
+            w.ctx.count("restart-opener:" + variant)
             w.ev_reg(v, h1, name, a, None)
             w.ev_selfadv(a, h1, name)
             meta = w.ov[a].metadata_chain[-1]
             real = [t.get_plaintext_signed() for t in w.ov[a].token_chain]
             x = rng.choice([k for k in w.sk if k not in (a, v)])
+            third_first = variant == "third-party-first"
             att, auth = (mk_attestation(w, x, meta.get_hash()), frame_auth(w, [x])) if third_first else (b"", b"")
-            w.trace.append({"op": "opener", "kind": kind, "third_first": third_first})
+            w.trace.append({"op": "opener", "kind": kind, "variant": variant, "keep_manager": keep})
+            if variant == "own-row-plus-row-of-other-subject":
+                # another subject b files x's attestation over a's metadata under ITS pseudonym first:
+                # rows (b, x, mp) and later (a, v, mp) share the metadata pointer
+                w.ev_reg(v, h2, name, b, None)
+                pl = w.P.DisclosePayload(b"", b"", mk_attestation(w, x, meta.get_hash()), frame_auth(w, [x]))
+                for e in w.craft(b, v, pl, "attestation over a foreign metadata filed under b"):
+                    w.queue.remove(e)
+                    w.ev_deliver(e)
             pl = w.P.DisclosePayload(frame_md([meta.get_plaintext_signed()]), b"".join(real), att, auth)
             pk = w.craft(a, v, pl, "disclosure before restart")
             for e in pk:
@@ -1028,7 +1083,7 @@ class Gen:
             if rng.random() < 0.5:
                 w.ev_advert(v, b, h2, name, None)       # v also has a chain of its own and opened it to b
                 self.craft_request(b, v, known=0)
-            w.ev_restart(v)
+            w.ev_restart(v, keep=keep)
             self.craft_request(b, v, known=0)           # permissions do not survive
             for e in pk:
                 w.ev_deliver(e, replayed=True)           # nothing registered in this lifetime: unsolicited
@@ -1037,6 +1092,29 @@ class Gen:
                 w.ev_deliver(e, replayed=True)
             for e in pk:
                 w.ev_deliver(e, replayed=True)
+        elif kind == "orphan-flood":
+            # more waiting tokens than the tree keeps (100): the oldest are forgotten; then the missing link arrives
+            w.ev_reg(v, h1, name, a, None)
+            n = rng.choice([98, 101, 105, 120])
+            prev, blobs = w.genesis[a], []
+            for i in range(n):
+                blob = mk_token(w, a, prev, h1 if i == n - 1 else sha3(b"flood%d" % i))
+                blobs.append(blob)
+                prev = sha3(blob)
+            w.trace.append({"op": "opener", "kind": kind, "n": n})
+            w.ctx.count("orphan-flood:%s" % ("over-cap" if n - 1 > 100 else "within-cap"))
+            order = list(reversed(blobs[1:]))            # newest first: every one of them waits for its predecessor
+            for i in range(0, len(order), 40):
+                for e in w.craft(a, v, w.P.MissingResponsePayload(b"".join(order[i:i + 40])), "orphans"):
+                    w.queue.remove(e)
+                    w.ev_deliver(e)
+            for e in w.craft(a, v, w.P.MissingResponsePayload(blobs[0]), "the missing first token"):
+                w.queue.remove(e)
+                w.ev_deliver(e)
+            md = mk_metadata(w, a, sha3(blobs[-1]), self.json_variant(name, None, "ok"))
+            for e in w.craft(a, v, w.P.DisclosePayload(frame_md([md]), b"", b"", b""), "metadata for the last token"):
+                w.queue.remove(e)
+                w.ev_deliver(e)
         elif kind == "replay":
             w.ev_reg(v, h1, name, a, None)
             w.ev_advert(a, v, h1, name, None)
@@ -1089,7 +1167,7 @@ class Gen:
         r = rng.random()
         if r < 0.16:
             v = self.node()
-            subj = rng.choice([k for k in w.sk if k != v])
+            subj = rng.choice([k for k in (w.nodes if rng.random() < 0.9 else w.sk) if k != v])
             w.ev_reg(v, self.rhash(), rng.choice(NAMES), subj, rng.choice(MDS))
         elif r < 0.27:
             s = self.node()
@@ -1121,20 +1199,27 @@ class Gen:
                 w.trace.append({"op": "drop"})
                 w.ctx.count("ev:drop")
         elif r < 0.61:
-            w.ev_restart(self.node())
+            w.ev_restart(self.node(), keep=rng.random() < 0.5)
         elif r < 0.69:
             # clock: small steps, or exactly onto / past the end of some registration's window
             allregs = [x for v in w.regs for x in w.regs[v]]
             if allregs and rng.random() < 0.5:
                 x = rng.choice(allregs)
-                tgt = x["t"] + rng.choice([WINDOW - 1, WINDOW, WINDOW, WINDOW + 1])
+                tgt = x["t"] + rng.choice([WINDOW_MS - 1000, WINDOW_MS - 125, WINDOW_MS, WINDOW_MS, WINDOW_MS + 125,
+                                           WINDOW_MS + 1000])
                 if tgt > w.now():
-                    w.ev_advance(tgt - w.now())
+                    w.ev_advance((tgt - w.now()) / 1000)
                     return
-            w.ev_advance(rng.choice([1, 1, 10, 100, 150, 299, 300, 301]))
+            w.ev_advance(rng.choice([0.125, 1, 1, 10.5, 100, 150, 299, 299.875, 300, 300.125, 301]))
         elif r < 0.84:
-            p = self.node()
-            self.craft_disclosure(p, self.node(p), deliver=rng.random() < 0.85)
+            pairs = [(x["key"], v_) for v_ in w.nodes for x in w.regs[v_] if x["key"] in w.nodes and x["key"] != v_]
+            if pairs and rng.random() < 0.7:
+                p, v_ = rng.choice(pairs)           # v_ holds (or held) a registration for p: the message is looked at
+                w.ctx.count("craft:disclose:to-registered-verifier")
+            else:
+                p = self.node()
+                v_ = self.node(p)
+            self.craft_disclosure(p, v_, deliver=rng.random() < 0.85)
         elif r < 0.90:
             p = self.node()
             self.craft_attest(p, self.node(p))
@@ -1147,7 +1232,7 @@ class Gen:
 
 
 OPENERS = ["cross-subject", "expiry", "third-party-first", "replay", "long-chain", "sha1", "fixed-metadata",
-           "wrong-name", "tainted", "restart", "stale-plus-fresh", "none"]
+           "wrong-name", "tainted", "restart", "stale-plus-fresh", "orphan-flood", "none"]
 
 
 async def run_world(ctx: Ctx, loop, use_model: bool, opener: str, n_events: int, world_seed: int):
@@ -1256,8 +1341,9 @@ def run_matrix(ctx: Ctx, use_model: bool):
     logging.disable(logging.CRITICAL)
     loop = vclock.new_loop()
     try:
-        combos = itertools.product([False, True], [True, False], [None, {}, {"a": "b"}], [None, {"a": "b"}, {"a": "c"}],
-                                   [0, 299, 300, 301], [False, True] if ctx.thorough() or ctx.searching else [False])
+        combos = itertools.product([False, True], [True, False], [None, {}, {"a": "b"}, {"a": 1}],
+                                   [None, {"a": "b"}, {"a": "c"}, {"a": True}],
+                                   [0, 300, 300.125, 301], [False, True] if ctx.thorough() or ctx.searching else [False])
         for i, combo in enumerate(combos):
             w = loop.run_until_complete(run_matrix_world(ctx, loop, use_model, combo, 1000 + i))
             if use_model:
@@ -1279,7 +1365,7 @@ def run(ctx: Ctx):
     if ctx.replay_input is not None:
         return replay(ctx, ctx.replay_input)
     run_matrix(ctx, ctx.model_ok)
-    run_worlds(ctx, ctx.scale(250, 3000), ctx.model_ok)
+    run_worlds(ctx, ctx.scale(234, 3003), ctx.model_ok)
 
 
 def search(ctx: Ctx, reason: str):
